@@ -269,7 +269,8 @@ fn build_tera(cfg: Option<&J>) -> Result<Tera, String> {
                 .collect::<Vec<_>>(),
         );
     }
-    if cfg.get("escape").and_then(|x| x.as_str()) == Some("brackets") {
+    let esc = cfg.get("escape").and_then(|x| x.as_str());
+    if esc == Some("brackets") || esc == Some("brackets-then-reset") {
         t.set_escape_fn(|input: &str, out: &mut dyn Write| {
             for c in input.chars() {
                 match c {
@@ -280,6 +281,9 @@ fn build_tera(cfg: Option<&J>) -> Result<Tera, String> {
             }
             Ok(())
         });
+        if esc == Some("brackets-then-reset") {
+            t.reset_escape_fn();
+        }
     }
     if let Some(g) = cfg.get("gctx") {
         for (k, v) in g.as_object().unwrap() {
@@ -494,7 +498,13 @@ fn run_step(
                 }
                 "render_str" => {
                     let s = step["src"].as_str().unwrap();
-                    if use_to { t.render_str_to(s, &ctx, auto, &mut w).map(|_| None) } else { t.render_str(s, &ctx, auto).map(Some) }
+                    if step.get("one_off").and_then(|x| x.as_bool()).unwrap_or(false) {
+                        Tera::one_off(s, &ctx, auto).map(Some)
+                    } else if use_to {
+                        t.render_str_to(s, &ctx, auto, &mut w).map(|_| None)
+                    } else {
+                        t.render_str(s, &ctx, auto).map(Some)
+                    }
                 }
                 _ => {
                     let n = step["name"].as_str().unwrap();
